@@ -521,7 +521,7 @@ def parseComponentStmt : Nat → PS → Stmt × PS
             if p4.peekIs .SLOT then parseSlots fuel [] p4.next
             else if p4.peekIs .HTML && isWhitespaceLit p4.peek.lit then
               let q := p4.next
-              if q.peekIs .SLOT then parseSlots fuel [] q.next else ([], q)
+              if q.peekIs .SLOT then parseSlots fuel [] q.next else ([], p4)
             else ([], p4)
           let cid := p5.nextId
           (.component t name arg cid,
